@@ -207,6 +207,8 @@ func (p *Program) zeroValue(typ *a.TypeExpr) Value {
 	case typ.IsEitherSliceType():
 		empty := []Value{}
 		return Value{K: KSlice, Back: &empty}
+	case typ.IsIOType():
+		return Value{K: KIO, IO: &IOBuf{Writer: p.TM.ByID(typ.QID()[1]) == "io_writer"}}
 	}
 	return Value{K: KEmpty}
 }
